@@ -34,7 +34,11 @@ def load(path: str | os.PathLike, format: str | None = None) -> _core.Model:
     # A bare file name has an empty dirname. Use the current directory instead so that
     # the base directory is never empty (an empty base directory disables the
     # containment checks of external tensors).
-    base_dir = os.path.abspath(os.path.dirname(path) or os.curdir)
+    # The base directory is made absolute (a later chdir must not redirect reads) by
+    # prefixing the current directory, NOT with os.path.abspath: abspath() also collapses
+    # "x/.." lexically, which names a different directory than the one the model file was
+    # opened from when x is a symbolic link to a directory elsewhere.
+    base_dir = os.path.join(os.getcwd(), os.path.dirname(path) or os.curdir)
     # Set the base directory for external data to the directory of the ONNX file
     # so that relative paths are resolved correctly.
     _external_data.set_base_dir(model.graph, base_dir)
